@@ -384,6 +384,11 @@ def concretize_inputs(inputs, m):
 def run_path(harness, prefix, model, outcome_of=None):
     """run one symbolic path; returns a dict describing it"""
     global CTX
+    try:
+        from . import instr as _instr
+        _instr.SYMKEY_DICTS.clear()
+    except Exception:
+        pass
     c = CTX = SymCtx(prefix, model)
     res = dict(status='ok', exc=None)
     try:
